@@ -327,6 +327,15 @@ static void rt_setup(void) {
     rt_add_range(SH->pan_status, sizeof(pan_status_t) * (size_t)(n + 1), RT_SYNC, "pan_status", (int)sizeof(pan_status_t));
     rt_add_range((void *)&SH->tasks_remain, sizeof SH->tasks_remain, RT_SYNC, "tasks_remain", (int)sizeof(int_t));
     rt_add_range(SH->ispruned, sizeof(int_t) * (size_t)n, RT_SYNC, "ispruned", (int)sizeof(int_t));
+    if (!getenv("VF_RACE_NOMETA")) {      /* column pointers of L and U and the prune pointers: written by the owner of a column before its release / under LLOCK, read by consumers after the flag or ispruned[] */
+        rt_add_range(G->xlsub, sizeof(int_t) * (size_t)(n + 1), RT_DATA, "xlsub", (int)sizeof(int_t));
+        rt_add_range(G->xlsub_end, sizeof(int_t) * (size_t)(n + 1), RT_DATA, "xlsub_end", (int)sizeof(int_t));
+        rt_add_range(G->xlusup, sizeof(int_t) * (size_t)(n + 1), RT_DATA, "xlusup", (int)sizeof(int_t));
+        rt_add_range(G->xlusup_end, sizeof(int_t) * (size_t)(n + 1), RT_DATA, "xlusup_end", (int)sizeof(int_t));
+        rt_add_range(G->xusub, sizeof(int_t) * (size_t)(n + 1), RT_DATA, "xusub", (int)sizeof(int_t));
+        rt_add_range(G->xusub_end, sizeof(int_t) * (size_t)(n + 1), RT_DATA, "xusub_end", (int)sizeof(int_t));
+        rt_add_range(SH->xprune, sizeof(int_t) * (size_t)n, RT_DATA, "xprune", (int)sizeof(int_t));
+    }
     rt_on = 1;
 }
 #endif
